@@ -2,6 +2,7 @@ package main
 
 import (
 	"fmt"
+	"hash/fnv"
 	"math/big"
 	"math/rand"
 	"sort"
@@ -14,8 +15,9 @@ import (
 // interner maps the strings the implementation sees to the small numbers of the model
 // ("" is 0); only equality of identifiers matters to the modelled code.
 type interner struct {
-	m map[string]int
-	r []string
+	m      map[string]int
+	r      []string
+	sealed bool // the fixed universe has been numbered
 }
 
 func newInterner() *interner {
@@ -26,6 +28,7 @@ func newInterner() *interner {
 			t.id(s)
 		}
 	}
+	t.sealed = true
 	return t
 }
 func (t *interner) id(s string) int {
@@ -33,6 +36,26 @@ func (t *interner) id(s string) int {
 		return v
 	}
 	v := len(t.r)
+	if t.sealed {
+		// strings outside the fixed universe get a number that depends on the string only, so
+		// that every process (the kill scenarios run the history in a child) and every interner
+		// numbers them alike
+		h := fnv.New64a()
+		h.Write([]byte(s))
+		v = 1000 + int(h.Sum64()%(1<<40))
+		for {
+			clash := false
+			for _, u := range t.m {
+				if u == v {
+					clash = true
+				}
+			}
+			if !clash {
+				break
+			}
+			v++
+		}
+	}
 	t.m[s] = v
 	t.r = append(t.r, s)
 	return v
@@ -261,13 +284,13 @@ func genNodeID(rng *rand.Rand) string {
 	case 2:
 		// another spelling of a known id: to the store a different identifier (ids are opaque strings)
 		id := pick(rng, nodeAlphabet)
-		return []string{strings.ToUpper(id), "0x" + id, " " + id + " ", id + "\x00"}[rng.Intn(4)]
+		return []string{strings.ToUpper(id), "0x" + id, " " + id + " ", id + "\x00", "enode:" + id, "::" + id, id + ":", id + ":" + id}[rng.Intn(8)]
 	}
 	return pick(rng, nodeAlphabet)
 }
 func genAcct(rng *rand.Rand) string {
-	if rng.Intn(25) == 0 {
-		return ""
+	if rng.Intn(9) == 0 {
+		return "" // the empty name is an account like any other to the store
 	}
 	return pick(rng, acctAlphabet)
 }
